@@ -35,8 +35,14 @@ def static_job(job):
             kw["S_init"] = S_prev
         if "extra_padding" in opts:
             kw["extra_padding"] = opts["extra_padding"]
-        G = Graph(nodes=dict(nodes), supervisor=nodes[cfg["sup"]], graphs_raw=g_raw, supergraph=compiled.MODES[mode], prune=prune,
-                  progress_bar=False, **kw)
+        try:
+            G = Graph(nodes=dict(nodes), supervisor=nodes[cfg["sup"]], graphs_raw=g_raw, supergraph=compiled.MODES[mode], prune=prune,
+                      progress_bar=False, **kw)
+        except KeyError as e:
+            # Timings.get_buffer_sizes raises KeyError when a node kind is absent from the supergraph although a present kind has
+            # an input from it (all its window entries are -1): compilation of such a graph fails (outside the properties, DESIGN 10.4)
+            out.setdefault("notes", []).append(f"{mode}/{prune}: Graph() raised KeyError {e}")
+            continue
         if mode == "mcs":
             S_prev = G.S
         gs = G.init(jax.random.PRNGKey(0))
@@ -74,8 +80,12 @@ def run_job(job):
         kw = {}
         if "extra_padding" in opts:
             kw["extra_padding"] = opts["extra_padding"]
-        G = Graph(nodes=dict(nodes), supervisor=nodes[cfg["sup"]], graphs_raw=g_raw, supergraph=compiled.MODES[mode], prune=prune,
-                  progress_bar=False, **kw)
+        try:
+            G = Graph(nodes=dict(nodes), supervisor=nodes[cfg["sup"]], graphs_raw=g_raw, supergraph=compiled.MODES[mode], prune=prune,
+                      progress_bar=False, **kw)
+        except KeyError as e:
+            out.setdefault("notes", []).append(f"{mode}/{prune}: Graph() raised KeyError {e} (DESIGN 10.4)")
+            continue
         tagm = f"{job.get('id', 'job')}/{mode}/{'prune' if prune else 'noprune'}"
         runner = {True: compiled.CompiledRunner(G, nodes, cfg, jit=True), False: compiled.CompiledRunner(G, nodes, cfg, jit=False)}
         statics = {}
